@@ -148,7 +148,14 @@ func (r *Result) write(path string) {
 
 type Rng struct{ s uint64 }
 
-func newRng(seed uint64) *Rng { return &Rng{s: seed*0x9E3779B97F4A7C15 + 0x1234567} }
+func newRng(seed uint64) *Rng {
+	// mix the seed so that neighbouring seeds give unrelated sequences
+	z := seed + 0x9E3779B97F4A7C15
+	z = (z ^ (z >> 30)) * 0xBF58476D1CE4E5B9
+	z = (z ^ (z >> 27)) * 0x94D049BB133111EB
+	z ^= z >> 31
+	return &Rng{s: z*0x9E3779B97F4A7C15 + 0x1234567}
+}
 
 func (r *Rng) next() uint64 {
 	r.s += 0x9E3779B97F4A7C15
